@@ -406,6 +406,9 @@ func (u *Unit) loopCtx(st *State, h *ssa.BasicBlock, phis map[*ssa.Phi]Term) *Ev
 	if snap, ok := st.loopSnap[u.headers[h]]; ok {
 		ctx.loopSnap = snap
 	}
+	if snap, ok := st.headSnap[u.headers[h]]; ok {
+		ctx.headSnap = snap
+	}
 	for k, t := range st.loopIn {
 		pre := fmt.Sprintf("%d:", u.headers[h])
 		if strings.HasPrefix(k, pre) {
@@ -654,6 +657,17 @@ func (u *Unit) loopEnter(st *State, from, h *ssa.BasicBlock) {
 		st.assume(g)
 	}
 	st.entered[h] = true
+	{
+		// athead(e) in ghost updates and invariants: e in the state at the head of this iteration
+		prev := st.headSnap
+		st.headSnap = nil
+		snap := st.clone()
+		st.headSnap = map[int]*State{}
+		for k, v := range prev {
+			st.headSnap[k] = v
+		}
+		st.headSnap[u.headers[h]] = snap
+	}
 	if dec != nil {
 		ctx := u.loopCtx(st, h, phis)
 		st.variant[h] = u.define(st, "variant", ctx.eval(dec.Expr))
@@ -677,6 +691,22 @@ func (u *Unit) loopBackEdge(st *State, from, h *ssa.BasicBlock) {
 			}
 		}
 		u.ghostUpdates(st, fmt.Sprintf("loop %d body end", u.headers[h]), ctx)
+	}
+	if u.contract != nil {
+		// checked hints at the end of the body: proved here, then available to the invariants
+		where := fmt.Sprintf("loop %d body end", u.headers[h])
+		for _, a := range u.contract.Asserts {
+			if a.Where != where {
+				continue
+			}
+			ctx := u.loopCtx(st, h, in)
+			g := ctx.eval(a.Clause.Expr)
+			for _, s := range ctx.side {
+				st.assume(s)
+			}
+			u.oblige(st, "assert", from.Instrs[len(from.Instrs)-1].Pos(), g, where+": "+a.Clause.Text, a.Clause.Tags)
+			st.assume(g)
+		}
 	}
 	inv, dec := u.loopClauses(h)
 	for _, c := range inv {
